@@ -1107,6 +1107,15 @@ class SymEval:
             return isinstance(op, (ast.Eq, ast.LtE, ast.GtE))
         return r
 
+    def e_Yield(self, n, p):
+        p.env.setdefault('__yielded__', [])
+        p.env['__yielded__'] = p.env['__yielded__'] + [self.ev(n.value, p) if n.value is not None else None]
+        return None
+
+    def e_YieldFrom(self, n, p):
+        p.env['__yielded__'] = p.env.get('__yielded__', []) + list(self.iterate(self.ev(n.value, p), n.value))
+        return None
+
     def e_IfExp(self, n, p):
         t = self.truth(self.ev(n.test, p), n.test, p)
         if t is None:
@@ -1602,10 +1611,19 @@ class SymEval:
             raise WouldRaise('uncaught %s in %s: %s' % (ex.name, fn.name, ex.exc))
         finally:
             self.fn_stack.pop()
+        is_gen = getattr(fn, '_am_is_gen', None)
+        if is_gen is None:
+            is_gen = any(isinstance(x, (ast.Yield, ast.YieldFrom)) for x in _own_walk(fn))
+            try:
+                fn._am_is_gen = is_gen
+            except Exception:
+                pass
         for q in paths:
             if q.done is None:
                 q.done = 'return'
                 q.ret = None
+            if is_gen and q.done == 'return':
+                q.ret = _ModelIter(q.env.get('__yielded__', []))     # a generator function, run eagerly: the values it yields, in order
         return paths
 
     # ------------------------------------------------------------ statements
@@ -1977,6 +1995,17 @@ def _minmax(symf, pyf, a, k, it):
     if all(isinstance(v, (int, sp.Integer)) and not isinstance(v, bool) for v in vals):
         return sp.Integer(pyf(int(v) for v in vals))
     return symf(*vals)
+
+
+def _own_walk(fn):
+    """nodes of a function body, not of functions nested in it"""
+    stack = list(fn.body)
+    while stack:
+        x = stack.pop()
+        yield x
+        for c in ast.iter_child_nodes(x):
+            if not isinstance(c, (ast.FunctionDef, ast.Lambda, ast.ClassDef)):
+                stack.append(c)
 
 
 class _ModelIter:
